@@ -426,7 +426,7 @@ PROPS = {
         theorems=[(CMP + 'C06', ['DX.feed_follows_doc', 'DX.equal_inputs_equal_feed', 'DX.feed_injective'])],
         l1=[('cmp1', 'all', 'all'), ('cmpN', 4000, 200000)],
         labels=r':Hash$',
-        extra=extra_cmp_l2('cmpRun', ('hash',), 1200, 24000),
+        extra=extra_cmp_l2('cmpRun', ('hash', 'hslice'), 1200, 24000),
     ),
     'C17': dict(
         explanation="theorem: the hidden Eq assertion covers exactly the fields that take part in equality, or their key value; ignored and by-compared fields are exempt (eq_assert_exact). L1; L2: rustc's accept / refuse verdict against that rule, also with Hash derived and #[hash(ignore)].",
